@@ -183,6 +183,72 @@ theorem feedLines_sepEq (recog : Bytes → Bool) : ∀ (lines : List Bytes) (k :
         · rw [h3, h4]
           exact ih k _ _ [] h2
 
+/-! ### empty (blank / comment-only) lines inside a keyword -/
+
+theorem feedLines_gap_empty (recog : Bytes → Bool) : ∀ (lines : List Bytes) (k : Kw) (gap gap' : Bytes),
+    feedLines recog k [] gap lines = feedLines recog k [] gap' lines := by
+  intro lines
+  induction lines with
+  | nil => intro k gap gap'; rfl
+  | cons line rest ih =>
+    intro k gap gap'
+    simp only [feedLines, feedLine, extendBuf, List.isEmpty_nil, ↓reduceIte]
+
+theorem feedLines_gap (recog : Bytes → Bool) : ∀ (lines : List Bytes) (k : Kw) (buf gap gap' : Bytes),
+    buf ≠ [] → tokState none buf ≠ some true → (∀ c ∈ gap, isSep c = true) → (∀ c ∈ gap', isSep c = true) →
+    feedLines recog k buf gap lines = feedLines recog k buf gap' lines := by
+  intro lines
+  induction lines with
+  | nil => intro k buf gap gap' _ _ _ _; rfl
+  | cons line rest ih =>
+    intro k buf gap gap' hne hout hg hg'
+    have hbe : buf.isEmpty = false := by cases buf <;> simp_all
+    simp only [feedLines, feedLine]
+    by_cases hl : line.isEmpty = true
+    · simp only [hl, ↓reduceIte, hbe, Bool.false_eq_true]
+      exact ih k buf _ _ hne hout
+        (by intro c hc; rcases List.mem_append.mp hc with h | h; exact hg c h; simp at h; subst h; decide)
+        (by intro c hc; rcases List.mem_append.mp hc with h | h; exact hg' c h; simp at h; subst h; decide)
+    · simp only [hl, Bool.false_eq_true, ↓reduceIte]
+      by_cases hr : (k.canComplete && recog (makeDeckName line)) = true
+      · simp only [hr, ↓reduceIte]
+      · simp only [hr, Bool.false_eq_true, ↓reduceIte]
+        have hrel : SepEq (extendBuf buf gap (delAfterSlash k.raw line 10))
+            (extendBuf buf gap' (delAfterSlash k.raw line 10)) := by
+          refine ⟨buf, [10] ++ gap, [10] ++ gap', delAfterSlash k.raw line 10, ?_, ?_, hne, by simp, by simp, ?_, ?_, hout⟩
+          · simp only [extendBuf, hbe, Bool.false_eq_true, ↓reduceIte, List.append_assoc]
+          · simp only [extendBuf, hbe, Bool.false_eq_true, ↓reduceIte, List.append_assoc]
+          · intro c hc; rcases List.mem_append.mp hc with h | h
+            · simp at h; subst h; decide
+            · exact hg c h
+          · intro c hc; rcases List.mem_append.mp hc with h | h
+            · simp at h; subst h; decide
+            · exact hg' c h
+        rcases afterExtend_sepEq k _ _ hrel with he | ⟨h3, h4⟩
+        · rw [he]
+        · rw [h3, h4]
+          exact feedLines_sepEq recog rest k _ _ [] hrel
+
+/-- **An empty cleaned line (blank, whitespace-only or comment-only in the source) inside
+a keyword changes nothing**, provided it does not fall inside a quoted token that spans
+lines. -/
+theorem feedLines_empty_line (recog : Bytes → Bool) (k : Kw) (buf gap : Bytes) (lines : List Bytes)
+    (hgap : ∀ c ∈ gap, isSep c = true) (hout : buf = [] ∨ tokState none buf ≠ some true) :
+    feedLines recog k buf gap ([] :: lines) = feedLines recog k buf gap lines := by
+  simp only [feedLines, feedLine, List.isEmpty_nil, ↓reduceIte]
+  by_cases hb : buf = []
+  · subst hb
+    simp only [List.isEmpty_nil, ↓reduceIte]
+    exact feedLines_gap_empty recog lines k [] gap
+  · have hbe : buf.isEmpty = false := by cases buf <;> simp_all
+    simp only [hbe, Bool.false_eq_true, ↓reduceIte]
+    have hout' : tokState none buf ≠ some true := by
+      rcases hout with h | h
+      · exact absurd h hb
+      · exact h
+    exact feedLines_gap recog lines k buf _ gap hb hout'
+      (by intro c hc; rcases List.mem_append.mp hc with h | h; exact hgap c h; simp at h; subst h; decide) hgap
+
 /-! ### the line-break rule -/
 
 theorem takeWhile_append_stop (p : UInt8 → Bool) (a : Bytes) (c : UInt8) (r : Bytes) (hc : p c = false) :
